@@ -100,6 +100,7 @@ Definition hist_op (flags : str) (st : md * list str) (op : str) : md * list str
   | 80 :: rest =>                                                           (* P *)
     let '(m', r) := parse_report (default_fuel m) m (arg_hex rest) flags in
     (m', out ++ [bs "P[" ++ r ++ bs "]"])
+  | 78 :: rest => (with_maxnest m (num rest), out)                             (* N: md.max_nesting = k *)
   | 68 :: _ =>                                                              (* D *)
     let x := do _ <- snd (r_debug (md_core m)); do _ <- snd (r_debug (md_block m)); snd (r_debug (md_inline m)) in
     (m, out ++ [match x with inr _ => bs "D[ok true]" | inl e => bs "D[panic " ++ err_name e ++ bs "]" end])
